@@ -223,7 +223,7 @@ def run(ctx):
     ctx.floor("C13.R5", 11)
     # ---------------------------------------------------------------- R6 the compiled forms of the validating / mapping classes (shared with C04.R3)
     from . import C04
-    C04.shared_obligations(ctx, "C13.R6", {"Const", "Enum", "FlagsEnum", "Mapping", "Check", "Error", "Select", "Peek", "Flag"})
+    C04.shared_obligations(ctx, "C13.R6", {"Const", "Enum", "FlagsEnum", "Mapping", "Check", "Error", "Select", "Peek", "Flag"}, with_expressions=True)
     ctx.floor("C13.R6", 10)
     for meth in ("_parse", "_build"):
         fi, paths = own_method_paths(ctx, "Error", meth)
@@ -331,4 +331,10 @@ def check_swallow(ctx, M, S, rule="C13.R5"):
             n += 1
             ctx.ob(rule, fi, ok, "a handler that can swallow ExplicitError is preceded by `except ExplicitError: raise`", node=e.node,
                    key="handler %s" % "/".join(e["types"]))
+        # a return / break / continue inside `finally:` discards whatever exception is in flight, ExplicitError included
+        for t in ast.walk(fi.node):
+            if isinstance(t, ast.Try) and t.finalbody:
+                jumps = [x for st in t.finalbody for x in ast.walk(st) if isinstance(x, (ast.Return, ast.Break, ast.Continue))]
+                n += 1
+                ctx.ob(rule, fi, not jumps, "the finally block does not return/break/continue (that would discard an ExplicitError in flight)", node=t, key="finally jumps")
     return n
